@@ -18,9 +18,9 @@ func (c Chooser) Intn(label string, n int) int {
 	return rapid.IntRange(0, n-1).Draw(c.T, label)
 }
 
-var keywords = []string{"a", "b", "leaf", "container", "pattern", "pattern", "description", "p:ext", "x:y:z", "kéy", "+", "/x", "a+b", "k-1.2", "*", "世"}
+var keywords = []string{"a", "b", "leaf", "container", "pattern", "pattern", "description", "p:ext", "x:y:z", "kéy", "+", "/x", "a+b", "k-1.2", "*", "世", "k\uFFFDy", "\U0001D11E"}
 
-var argRunes = []rune{'a', 'b', 'z', '0', ' ', ' ', '\t', '\n', '\n', '"', '\'', '\\', ';', '{', '}', '/', '*', '+', 'é', '世', 'n', 't', '\r', '-', ':'}
+var argRunes = []rune{'a', 'b', 'z', '0', ' ', ' ', '\t', '\n', '\n', '"', '\'', '\\', ';', '{', '}', '/', '*', '+', 'é', '世', 'n', 't', '\r', '-', ':', '\uFFFD', '\U0001D11E'}
 
 func genArg(t *rapid.T) string {
 	switch rapid.IntRange(0, 9).Draw(t, "arg-shape") {
@@ -37,7 +37,7 @@ func genArg(t *rapid.T) string {
 				s += "\n"
 			}
 			s += rapid.StringOfN(rapid.RuneFrom([]rune{' ', ' ', '\t'}), 0, 4, -1).Draw(t, "lead")
-			s += rapid.StringOfN(rapid.RuneFrom([]rune{'a', 'b', ' ', 'é', '\\', '"'}), 0, 6, -1).Draw(t, "body")
+			s += rapid.StringOfN(rapid.RuneFrom([]rune{'a', 'b', ' ', 'é', '\\', '"', '\uFFFD'}), 0, 6, -1).Draw(t, "body")
 			s += rapid.StringOfN(rapid.RuneFrom([]rune{' ', '\t'}), 0, 2, -1).Draw(t, "trail")
 		}
 		return s
@@ -87,7 +87,7 @@ func Render(t *rapid.T, f []*rfc6.Node) string {
 	return p.String()
 }
 
-var mutRunes = []rune{'a', ' ', '\n', '\t', '\r', ';', '{', '}', '"', '\'', '\\', '+', '/', '*', 'n', 'é'}
+var mutRunes = []rune{'a', ' ', '\n', '\t', '\r', ';', '{', '}', '"', '\'', '\\', '+', '/', '*', 'n', 'é', '\uFFFD'}
 
 // Mutate applies one character-level mutation.
 func Mutate(t *rapid.T, text string) string {
